@@ -968,7 +968,89 @@ def rule_constructor_copies(ctx):
     ctx.covered('R20.12', 'storage attributes assigned in the constructors of the vector classes are fresh objects, not aliases of arguments', n, floor=1)
 
 
+def rule_new_axes(ctx):
+    """R20.13: reb_rotation_init_to_new_axes(newz, newx) must map newz onto the z axis whatever newx is. It is built as
+    q2 * q1 with q1 = from_to(newz, z). Two structural conditions, both necessary:
+    (a) the projection of newx on newz that is subtracted to orthogonalise newx is taken with the *normalised* newz (a dot
+        product with the vector as passed scales the subtracted component by |newz|: for |newz| != 1 the orthogonalised
+        newx keeps a component along newz and the second rotation tilts the axis);
+    (b) the second factor leaves z fixed: it is a rotation about the literal z axis. A general from-to rotation does not
+        qualify - for (nearly) antiparallel arguments its axis is arbitrary and may flip z."""
+    tu = cfront.load_tu('rotations.c')
+    fn = tu.func('reb_rotation_init_to_new_axes')
+    ps = [p_.get('name') for p_ in cfront.params(fn)]
+    anchor(len(ps) == 2, 'reb_rotation_init_to_new_axes(newz, newx)')
+    zname = ps[0]
+    top = cfront.body(fn).get('inner', [])
+    n = 0
+    where = 'src/rotations.c:%s reb_rotation_init_to_new_axes'
+    # (a) source-order typestate of the first parameter: raw until assigned from reb_vec3d_normalize of itself
+    unit = False
+    dots = 0
+    for st in top:
+        for e in walk(st):
+            if e.get('kind') == 'CallExpr' and callee_name(e) == 'reb_vec3d_dot' and any(render(a_) == zname for a_ in call_args(e)):
+                dots += 1
+                n += 1
+                if not unit:
+                    ctx.report('R20.13', 'new_axes:projection', where % line_of(e),
+                               'the component of %s along %s is computed with %s as it was passed, before it is normalised: for |%s| != 1 the orthogonalised %s keeps a component along %s and the second rotation moves %s off the z axis'
+                               % (ps[1], zname, zname, zname, ps[1], zname, zname))
+        for e in walk(st):
+            if is_assign(e) and e['opcode'] == '=' and render(e['inner'][0]) == zname:
+                r0 = strip(e['inner'][1], casts=True)
+                unit = r0.get('kind') == 'CallExpr' and callee_name(r0) == 'reb_vec3d_normalize' and render(call_args(r0)[0]) == zname
+    anchor(dots >= 1, 'the projection of the new x axis on the new z axis (reb_vec3d_dot) in reb_rotation_init_to_new_axes')
+    # (b) the returned product
+    zlits = set()
+    inits = {}
+    for d in walk(cfront.body(fn)):
+        if d.get('kind') == 'VarDecl' and 'init' in d:
+            init = [c for c in d.get('inner', []) if c.get('kind') not in ('FullComment',)]
+            if not init:
+                continue
+            inits[d['name']] = strip(init[-1], casts=True)
+            if 'reb_vec3d' in qtype(d):
+                for il in walk(d):
+                    if il.get('kind') == 'InitListExpr':
+                        try:
+                            vals = [float(render(x).replace(' ', '').strip('()')) for x in il.get('inner', [])]
+                        except ValueError:
+                            vals = []
+                        if vals == [0.0, 0.0, 1.0]:
+                            zlits.add(d['name'])
+                        break
+    rets = [x for x in walk(cfront.body(fn)) if x.get('kind') == 'ReturnStmt' and x.get('inner')]
+    anchor(len(rets) == 1, 'single return of reb_rotation_init_to_new_axes')
+    r0 = strip(rets[0]['inner'][0], casts=True)
+    if r0.get('kind') == 'DeclRefExpr' and r0['referencedDecl']['name'] in inits:
+        r0 = inits[r0['referencedDecl']['name']]
+    if not (r0.get('kind') == 'CallExpr' and callee_name(r0) == 'reb_rotation_mul'):
+        raise AnalysisError('R20.13: reb_rotation_init_to_new_axes no longer returns a product of two rotations (%s)' % render(r0)[:80])
+
+    def factor(a):
+        a = strip(a, casts=True)
+        if a.get('kind') == 'DeclRefExpr' and a['referencedDecl']['name'] in inits:
+            return inits[a['referencedDecl']['name']]
+        return a
+    second, first = (factor(a) for a in call_args(r0))
+    n += 2
+    ok1 = first.get('kind') == 'CallExpr' and callee_name(first) == 'reb_rotation_init_from_to' and render(call_args(first)[0]) == zname and render(call_args(first)[1]) in zlits
+    if not ok1:
+        ctx.report('R20.13', 'new_axes:first', where % line_of(first), 'the first rotation applied is %s, not the rotation that takes %s to the z axis' % (render(first)[:80], zname))
+    ok2 = second.get('kind') == 'CallExpr' and callee_name(second) == 'reb_rotation_init_angle_axis' and render(call_args(second)[1]) in zlits
+    if not ok2:
+        if second.get('kind') == 'CallExpr' and callee_name(second) in ('reb_rotation_init_from_to', 'reb_rotation_init_from_to_reduced', 'reb_rotation_init_angle_axis'):
+            ctx.report('R20.13', 'new_axes:second', where % line_of(second),
+                       'the second rotation (%s) is not a rotation about the z axis: a from-to rotation keeps z fixed only when its axis happens to be z, and for a new x axis that ends up antiparallel to x the axis is decided by rounding noise - %s can be mapped to -z'
+                       % (render(second)[:80], zname))
+        else:
+            raise AnalysisError('R20.13: the second factor of the product returned by reb_rotation_init_to_new_axes (%s) is not a rotation constructor the rule knows' % render(second)[:80])
+    ctx.covered('R20.13', 'to_new_axes: projection taken with the normalised new z axis; product of from_to(newz, z) and a rotation about z', n, floor=3)
+
+
 def run(ctx):
+    rule_new_axes(ctx)
     rule_constructor_copies(ctx)
     rule_linear_map_effects(ctx)
     rule_orbital_inverse(ctx)
